@@ -29,3 +29,5 @@ def run(prog, rep):
     _rs.run_stale_size(prog, rep)
     from ..rules import r_err as _re
     _re.run_exists(prog, rep)
+    from ..rules import r_io as _rio4
+    _rio4.run_reclaim(prog, rep)
